@@ -595,7 +595,7 @@ func c12SchedMain(e *Env) {
 			e.R.Fail(ev.Fail{Class: cl, Msg: fmt.Sprintf("text conv %s on %q under schedule %v: %s (%s); under the default schedule: %s", c.Mode, trunc(c.Text, 60), v.Schedule, v.Outcome, v.What, v.Want), Kind: "schedule-text-conv", Case: cc})
 		}
 	}
-	if execs == 0 && exh {
+	if execs == 0 && exh && e.R.FailCount() == 0 {
 		panic("C12 harness: the text-conv schedule exploration ran no execution")
 	}
 	e.R.AddPart(ev.Part{Name: "schedules-text-conv", Enumerated: fmt.Sprintf("the whole `text conv` path (parseText, classification, conversion, marshalling) driven from inside package main under the cooperative scheduler (%d synchronisation sites rewritten in %v): <= 5 preemptions (all interleavings in thorough) for 2-chord texts, preemption-bounded for 3, 14, 270 and 300+ chord texts with key changes (more than 256 chords, so that chunked/parallel conversion would engage); every schedule must give the bytes and verdict of the default schedule, no deadlock, no panic", res.Points, res.Rewritten), Executions: execs, States: int64(len(cases)), Transitions: execs, Exhaustive: exh, Note: strings.Join(notes, " | ")})
@@ -738,7 +738,7 @@ func c12SchedCommands(e *Env, cmds []c12Cmd) {
 			e.R.Fail(ev.Fail{Class: cl, Msg: fmt.Sprintf("%s under schedule %v: %s (%s); under the default schedule: %s", line, v.Schedule, v.Outcome, v.What, v.Want), Kind: "schedule-command", Case: cc})
 		}
 	}
-	if execs == 0 && exh {
+	if execs == 0 && exh && e.R.FailCount() == 0 {
 		panic("C12 harness: the command schedule exploration ran no execution")
 	}
 	e.R.AddPart(ev.Part{Name: part, Enumerated: fmt.Sprintf("%d command lines (every subcommand: text parse/conv, write, write event/parse/conv, info key/attr/chord list/describe/conv, gen; built-in and user dictionaries) executed through cobra inside package main under the cooperative scheduler, stdin and stdout redirected to files; preemption bound 2 (3 in thorough; 0 for inputs over 2 kB), each schedule must give the verdict and stdout bytes of the default schedule, no deadlock, no panic; %d of them reach a scheduling point at all (the others run no goroutine, channel or lock: one schedule)", len(cases), concurrent), Executions: execs, States: int64(len(cases)), Transitions: execs, Exhaustive: exh, Note: strings.Join(notes, " | ")})
@@ -952,7 +952,7 @@ func runC12(e *Env) {
 			}
 			e.R.NonTrivial("sched" + fmt.Sprint(i))
 		}
-		if execs == 0 && exh {
+		if execs == 0 && exh && e.R.FailCount() == 0 {
 			panic("C12 harness: the schedule exploration ran no execution")
 		}
 		e.R.AddPart(ev.Part{Name: "schedules", Enumerated: fmt.Sprintf("ASTTypeClassifier.Classify under the cooperative scheduler (%d synchronisation sites rewritten in %v): all interleavings for trees of <= 2 chords; preemption-bounded for 8 and 40 chords (consistent, inconsistent at the 2nd/last chord and in a bass; > 100 nodes so that the producer blocks on the full buffer); outcome compared with a sequential reference walk, deadlock and panic detection, failing schedules replayed twice", sres.Points, sres.Rewritten), Executions: execs, States: int64(len(trees)), Transitions: execs, Exhaustive: exh, Note: strings.Join(notes, " | ")})
